@@ -20,7 +20,7 @@ def content_stream(data, flate=False, extra=None):
     return Stream(d, raw)
 
 
-def build_pdf(objects, root, info=None, form="table", tape=None, pack=None, trailer_extra=None, eol=b"\n", order=None):
+def build_pdf(objects, root, info=None, form="table", tape=None, pack=None, trailer_extra=None, eol=b"\n", order=None, flate_containers=True):
     """Serialise {id: value} into a single-revision PDF.
 
     form: 'table' | 'stream' (xref stream; ``pack``: ids to store in one object stream)."""
@@ -48,8 +48,10 @@ def build_pdf(objects, root, info=None, form="table", tape=None, pack=None, trai
         nxt = max(objects) + 1
         if pack:
             d, payload = object_stream([(i, objects[i]) for i in pack])
-            raw = zlib.compress(payload)
-            d[b"Filter"] = Name(b"FlateDecode")
+            raw = payload
+            if flate_containers:
+                raw = zlib.compress(payload)
+                d[b"Filter"] = Name(b"FlateDecode")
             d[b"Length"] = len(raw)
             off = fw.add_object(nxt, Stream(d, raw))
             entries[nxt] = ("n", off, 0)
@@ -58,7 +60,7 @@ def build_pdf(objects, root, info=None, form="table", tape=None, pack=None, trai
             nxt += 1
         entries[0] = ("f", 0, 65535)
         trailer[b"Size"] = nxt + 1
-        fw.xref_stream(nxt, entries, trailer, widths=(1, 3, 2))
+        fw.xref_stream(nxt, entries, trailer, widths=(1, 3, 2), flt=flate_containers)
     return fw
 
 
